@@ -32,11 +32,11 @@ CHECKS = {
          "All short histories of callbacks, replies (late, duplicate, unknown), cancellations, deadlines, colliding client calls and Stop; emitted records must be exactly those the pushes and calls account for.", BUBBLE),
  "C10": ("exploration", "runtime monitor: instrumented channel with online overlap counters + race-detector shadow fields + record validator under real-time stress and delay-bounded bubble scenarios",
          "The channel the library is given detects a second concurrent Send/Recv, Send||Close, a second Close and incomplete records at the instant they happen, under stress and under every single-hook delay.", "trusts the Go race detector and the harness channel; overlap is only detected when it actually occurs in an explored execution"),
- "C11": ("exploration", "runtime monitor: chunk-controlled reader under every cut set; received records compared byte for byte with sent records",
-         "Round trip of pipelined record sequences through every framing under exhaustive small cut sets and boundary sizes.", INPUT),
+ "C11": ("exploration", "runtime monitor: chunk-controlled reader under every cut set; received records compared byte for byte with sent records; deterministic two-thread schedules with one operation suspended inside its transport call while a sibling channel of the same Framing value or the other direction of the same channel runs",
+         "Round trip of pipelined record sequences through every framing under exhaustive small cut sets and boundary sizes; channels used in company (siblings, duplex) must not disturb each other.", INPUT),
  "C12": ("fault_enumeration", "runtime monitor: three reference decoders vs Recv results on exhaustive token strings, absurd lengths, every truncation point; crash attribution by journal",
          "Every token string up to the bound, every truncation point of valid streams and absurd lengths are decoded by the real framings and compared with reference decoders; panics and fatal errors are violations.", INPUT),
- "C13": ("exploration", "runtime monitor: every record captured on the instrumented channel / bridge body validated and parsed back against the generated values; ParseRequests vs reference classifier and differentially vs a live server; concurrent emission stress",
+ "C13": ("exploration", "runtime monitor: every record captured on the instrumented channel / bridge body validated and parsed back against the generated values; ParseRequests vs reference classifier and differentially vs a live server; concurrent emission stress; values that cannot be encoded (whatever is emitted must still be well formed)",
          "Generated method names, params, results and errors are driven through every emitting path of the real library; the bytes on the wire must be one-line valid UTF-8 JSON-RPC and parse back to what was generated; ParseRequests flags exactly the structurally invalid members.", INPUT),
  "C14": ("exploration", "runtime monitor: grammar of handler errors through a live server/client, reference ErrorCode classifier; all 2^32 codes in thorough",
          "Errors generated from a grammar cross the real wire; code, message, data and sentinel identity are compared; the pure code identity is exhaustive in thorough.", INPUT),
@@ -44,8 +44,8 @@ CHECKS = {
          "Signatures x options x params are executed through the real wrapper and compared with an encoding/json oracle; no panics.", INPUT),
  "C16": ("exploration", "runtime monitor: captured arguments / decoded targets vs encoding/json oracle for Positional, Args, Obj",
          "Arities, names and params shapes are enumerated and compared with per-argument decode oracles; untouched targets checked with sentinels.", INPUT),
- "C17": ("exploration", "runtime monitor: reference resolver vs identity tags returned through a live server; recording assigners observe InboundRequest/ServerFromContext",
-         "All method-name strings over the boundary alphabet, as names and map keys, nested ServiceMaps, both DisableBuiltin settings.", INPUT),
+ "C17": ("exploration", "runtime monitor: reference resolver vs identity tags returned through a live server; recording assigners observe InboundRequest/ServerFromContext; method member re-spelt on the wire (escape variants); assigner modified while the server runs",
+         "All method-name strings over the boundary alphabet, as names and map keys, nested ServiceMaps, both DisableBuiltin settings; every JSON spelling of a name dispatches alike; rpc.serverInfo follows a changing assigner.", INPUT),
  "C18": ("exploration", "runtime monitor: per-POST oracle (reference classifier, unique tags, handler log) on a real Bridge via httptest; concurrent POSTs with colliding ids gated inside synctest bubbles, delay-bounded schedules, real-time stress under the race detector",
          "Bodies from the request-variant product and concurrent POSTs sharing ids are answered by the real bridge; each caller must get exactly its own responses with its own id text, invalid members their own errors, refused requests no handler run.", BUBBLE),
  "C19": ("exploration", "runtime monitor: reference query-value typer vs ParseQuery; live Getter status mapping; HTTP-channel scenarios in synctest bubbles with body-close accounting and leak scan",
